@@ -846,7 +846,8 @@ impl CaseDriver for Pair {
         let pr = REFL[c.free(4, "placed-refl")];
         let ps = 2 + c.free(2, "placed-size");
         let (side, align) = SIDE_ALIGN[c.free(8, "side-align")];
-        let sep = [Sep::None, Sep::Pitches(1), Sep::Pitches(5), Sep::SizeOf(4), Sep::Pitches(-2)][c.free(5, "sep")].clone();
+        // (the last one: by the size of the reference's own cell)
+        let sep = [Sep::None, Sep::Pitches(1), Sep::Pitches(5), Sep::SizeOf(4), Sep::Pitches(-2), Sep::SizeOf(rs)][c.free(6, "sep")].clone();
         let parent_first = c.flag("parent-first");
         let two_parents = c.flag("two-parents");
         let stepped = c.flag("stepped-outlines");
@@ -930,7 +931,9 @@ impl CaseDriver for Graph {
                 }
             } else {
                 let (side, align) = SIDE_ALIGN[c.cost(8, "side-align")];
-                let sep = [Sep::None, Sep::Pitches(2), Sep::SizeOf(2), Sep::Pitches(-3)][c.cost(4, "sep")].clone();
+                // (the last one: by the size of the cell of the reference instance, where that one is already defined)
+                let ref_cell = insts.get(tgt - 1).map(|d: &InstDef| d.cell).unwrap_or(0);
+                let sep = [Sep::None, Sep::Pitches(2), Sep::SizeOf(2), Sep::Pitches(-3), Sep::SizeOf(ref_cell)][c.cost(5, "sep")].clone();
                 Loc::Rel { to: tgt - 1, side, align, sep }
             };
             insts.push(InstDef { cell, rh: r.0, rv: r.1, loc });
@@ -1014,11 +1017,19 @@ impl CaseDriver for Arr {
         // (count 0: an array of nothing)
         let count = [1usize, 2, 3, 0, 4][c.free(t.pick(4, 5), "count")];
         let pitch = PITCHES[c.free(4, "pitch")];
+        // costed: no pitch at all / an explicit pitch of zero (the copies then lie on top of each other, all of them)
+        let zero = c.cost(4, "pitch-zero");
+        let pitch = match zero {
+            1 => (None, None),
+            2 => (Some(0), Some(0)),
+            _ => pitch,
+        };
         let r = REFL[c.free(4, "refl")];
         let nested = c.free(13, "unit");
         let inner = if nested == 0 { None } else { Some((1 + (nested - 1) / 4, PITCHES[(nested - 1) % 4])) };
         // an inner array of count 0 (costed): the whole array then has no children
         let inner = if inner.is_some() && c.cost(2, "inner-count-zero") == 1 { inner.map(|(_, pp)| (0usize, pp)) } else { inner };
+        let inner = if zero == 3 { inner.map(|(n, _)| (n, (None, None))) } else { inner };
         let at = [(9, 13), (-5, -8), (0, 0), (0, 20), (30, 0)][c.free(5, "origin")];
         let with_insts = c.flag("with-instances");
         let cell = c.free(2, "cell");
